@@ -87,6 +87,9 @@ func (e *Encoder) encodeValue(f field, rt reflect.Type, rv reflect.Value) (err e
 	if rv.Kind() == reflect.Interface && !rv.IsNil() {
 		rv = rv.Elem()
 		if rv.Kind() == reflect.Ptr {
+			if rv.IsNil() {
+				return errors.Errorf("nil pointer value for field %v", f.name)
+			}
 			rv = rv.Elem()
 		}
 		rt = rv.Type()
